@@ -565,10 +565,10 @@ func (s *Server) FastInvoke(w http.ResponseWriter, i *interop.Invoke, direct boo
 
 			if cachedInitError := s.getCachedInitErrorResponse(); cachedInitError != nil {
 				// /init/error was called
-				s.trySendDefaultErrorResponse(cachedInitError)
+				s.trySendDefaultErrorResponse(invokeID, cachedInitError)
 			} else {
 				// sent only if /error and /response not called
-				s.trySendDefaultErrorResponse(invokeFailure.DefaultErrorResponse)
+				s.trySendDefaultErrorResponse(invokeID, invokeFailure.DefaultErrorResponse)
 			}
 			doneFail := doneFailFromInvokeFailure(invokeFailure)
 			s.InvokeDoneChan <- DoneWithState{
@@ -604,9 +604,11 @@ func (s *Server) getCachedInitErrorResponse() *interop.ErrorInvokeResponse {
 	return s.cachedInitErrorResponse
 }
 
-func (s *Server) trySendDefaultErrorResponse(resp *interop.ErrorInvokeResponse) {
-	if err := s.SendErrorResponse(s.GetCurrentInvokeID(), resp); err != nil {
-		if err != interop.ErrResponseSent {
+func (s *Server) trySendDefaultErrorResponse(invokeID string, resp *interop.ErrorInvokeResponse) {
+	// address the invocation that failed, not whichever one is current by now: a concurrent
+	// reset may already have released it (nobody left to answer) or a new one may be reserved
+	if err := s.SendErrorResponse(invokeID, resp); err != nil {
+		if err != interop.ErrResponseSent && err != interop.ErrInvalidInvokeID {
 			log.Panicf("Failed to send default error response: %s", err)
 		}
 	}
